@@ -29,7 +29,7 @@ package cronschedule
 //@   safety overflow, nil
 //@   requires jobConfig != nil && cfg != nil
 //@   ensures [C04] latest-of-bounds: thresholdFits(cfg) ==> ns(result) == initialNs(jobConfig, cfg, fromTime, now)
-//@   ensures [C04] keeps-location: result.Location() == fromTime.Location()
+//@   ensures [C01,C04] keeps-location: result.Location() == fromTime.Location()
 //@   ensures [C04] never-before-last-scheduled: isSet(jobConfig.Status.LastScheduled) ==> ns(result) >= ns(jobConfig.Status.LastScheduled.Time)
 //@   ensures [C04] never-scheduled-not-backdated: !isSet(jobConfig.Status.LastScheduled) ==> ns(result) >= ns(fromTime)
 
